@@ -423,6 +423,22 @@ def bounded_native(ck):
                                                   "input": {"names": names, "axis": names[k_], "node": j_, "of": len(ax_), "value": float(ax_[j_])}, "observed": {"max abs error": float(np.abs(np.asarray(s_.data, dtype=np.float64) - np.take(data, j_, axis=k_)).max())}})
                             except Exception as ex:
                                 fails.append({"obligation": "bounded.slice.nodes", "clause": "slicing at a node succeeds", "input": {"names": names, "axis": names[k_], "node": j_}, "observed": repr(ex)[:160]})
+                # a coordinate close to a node but not on it is still blended (no snapping to the node)
+                if dt is np.float64 and len(names) > 1:
+                    ax_ = axes[0].astype(np.float64)
+                    if len(np.unique(ax_)) == len(ax_) and len(ax_) >= 2:
+                        for j_, val_ in ((0, ax_[0] + 1e-6 * (ax_[1] - ax_[0])), (len(ax_) - 2, ax_[-1] - 3e-7 * (ax_[-1] - ax_[-2])), (0, float(np.nextafter(ax_[0], ax_[1])))):
+                            n += 1
+                            try:
+                                s_ = grid_slice_interp(NssGrid(data, [a.astype(np.float64) for a in axes], list(names)), val_, 0)
+                                w_ = (val_ - ax_[j_]) / (ax_[j_ + 1] - ax_[j_])
+                                want_ = (1 - w_) * np.take(data, j_, axis=0) + w_ * np.take(data, j_ + 1, axis=0)
+                                scale_ = np.abs(np.take(data, j_ + 1, axis=0) - np.take(data, j_, axis=0)).max()
+                                if np.abs(np.asarray(s_.data, float) - want_).max() > 1e-3 * w_ * scale_ + 1e-12 * np.abs(want_).max() and w_ > 1e-12:
+                                    fails.append({"obligation": "bounded.slice", "clause": "a coordinate close to a node (but not on it) gives the linear blend of the two neighbouring sub-grids, not the node's sub-grid",
+                                                  "input": {"names": names, "axis": names[0], "value": repr(float(val_)), "node": repr(float(ax_[j_])), "weight of the next node": float(w_)}, "observed": {"max abs error": float(np.abs(np.asarray(s_.data, float) - want_).max())}})
+                            except Exception as ex:
+                                fails.append({"obligation": "bounded.slice", "clause": "slicing next to a node succeeds", "input": {"names": names, "value": repr(float(val_))}, "observed": repr(ex)[:160]})
                 # slices: exact at nodes, blend in between (also for integer grids)
                 k = int(rng.integers(0, len(names)))
                 ax = axes[k].astype(np.float64)
